@@ -37,6 +37,7 @@ def install(ctx):
     """Add the stand-in pages unless the real Scribunto files exist."""
     if real_present():
         return False
-    ctx.add_page("Module:ustring:ustring", 828, USTRING, model="Scribunto")
-    ctx.add_page("Module:libraryUtil", 828, LIBUTIL, model="Scribunto")
+    ns = ctx.NAMESPACE_DATA["Module"]
+    ctx.add_page(ns["name"] + ":ustring:ustring", ns["id"], USTRING, model="Scribunto")
+    ctx.add_page(ns["name"] + ":libraryUtil", ns["id"], LIBUTIL, model="Scribunto")
     return True
